@@ -93,6 +93,9 @@ let dispatch fn args = match fn, args with
     let (st', ds) = consolidateCloned st pgs in
     let show d = String.concat "," (List.map (fun (k, v) -> hex_of_bytes k ^ "=" ^ hex_of_z v) d) in
     show (st' id) ^ "|" ^ String.concat ";" (List.map show ds)
+  | "FormDedup", [g; forms; limit] ->
+    let (a, b) = formDedupCounts (z_of_hex limit) (graph_of_string g) (zlist_of_string forms) in
+    string_of_int (int_of_nat a) ^ "," ^ string_of_int (int_of_nat b)
   | "Strip", [s] -> hex_of_bytes (strip (bytes_of_hex s))
   | _ -> failwith ("unknown function " ^ fn)
 let () = main dispatch
